@@ -176,6 +176,19 @@ static void on_chain(YR_SCAN_CONTEXT* ctx, YR_STRING* s, uint64_t off, int32_t l
 }
 #endif
 
+static int default_include = 0;
+/* ---------- descriptor accounting: an API call must neither leak a descriptor nor close one of the caller's ---------- */
+#include <dirent.h>
+static int count_fds(void)
+{
+  int n = 0;
+  DIR* d = opendir("/proc/self/fd");
+  if (d == NULL) return -1;
+  while (readdir(d) != NULL) n++;
+  closedir(d);
+  return n;
+}
+
 /* ---------- parsing helpers ---------- */
 static int hexv(int c) { return isdigit(c) ? c - '0' : (tolower(c) - 'a' + 10); }
 
@@ -664,6 +677,7 @@ int main(int argc, char** argv)
       else if (!strcmp(tok[1], "quietnomatch")) default_quiet = atoi(tok[2]);
       else if (!strcmp(tok[1], "iterlog")) iter_log = atoi(tok[2]);
       else if (!strcmp(tok[1], "flushscan")) flush_scan = atoi(tok[2]);
+      else if (!strcmp(tok[1], "defaultinclude")) default_include = atoi(tok[2]);   /* compilers keep the library's own include callback (real files) */
 #ifdef YARA_VERIF
       else if (!strcmp(tok[1], "chainhook")) yr_verif_chain_hook = atoi(tok[2]) ? on_chain : NULL;
       else if (!strcmp(tok[1], "achooks")) { yr_verif_atom_hook = atoi(tok[2]) ? on_atom : NULL; yr_verif_cand_hook = atoi(tok[2]) ? on_cand : NULL; }
@@ -760,7 +774,7 @@ int main(int argc, char** argv)
       NEED(1);
       int c = slot(tok[1], MAXSLOT);
       int r = yr_compiler_create(&compilers[c]);
-      if (r == ERROR_SUCCESS) yr_compiler_set_include_callback(compilers[c], include_cb, include_free, NULL);
+      if (r == ERROR_SUCCESS) { if (!default_include) yr_compiler_set_include_callback(compilers[c], include_cb, include_free, NULL); }
       else compilers[c] = NULL;
       fprintf(out, "{\"e\":\"CompilerCreate\",\"cid\":%d,\"ret\":%d}\n", c, r);
     }
@@ -818,6 +832,7 @@ int main(int argc, char** argv)
       fprintf(out, ",\"srclen\":%zu,\"diag\":[", src.n);
       yr_compiler_set_callback(compilers[c], compiler_cb, &d);
       int r;
+      int fds_before = count_fds();
       if (!strcmp(op, "add")) r = yr_compiler_add_string(compilers[c], (const char*) src.p, ns);
       else if (!strcmp(op, "addbytes")) r = yr_compiler_add_bytes(compilers[c], src.p, src.n, ns);
       else
@@ -830,6 +845,8 @@ int main(int argc, char** argv)
         unlink(path);
       }
       fprintf(out, "],\"ret\":%d,\"errors\":%d,\"warnings\":%d,\"code\":%d}\n", r, d.errors, d.warnings, r > 0 ? (d.first_code ? d.first_code : compilers[c]->last_error) : 0);
+      if (count_fds() != fds_before)
+        fprintf(out, "{\"e\":\"FdProblem\",\"what\":\"%s left %d more open descriptors than before the call\"}\n", op, count_fds() - fds_before);
 #ifdef YARA_VERIF
       if (atom_len) { fwrite(atom_buf, 1, atom_len, out); atom_len = 0; }
 #endif
@@ -1080,6 +1097,7 @@ int main(int argc, char** argv)
               s, d, datas[d].n, mode, tok[4], tok[5], tok[6], sc->flags, tag);
       if (flush_scan) fflush(out);
       int r = -1, calls = 0;
+      int scan_fds_before = count_fds();
       struct timespec t0, t1;
       clock_gettime(CLOCK_MONOTONIC, &t0);
       if (!strcmp(mode, "mem")) { r = yr_scanner_scan_mem(sc, datas[d].p, datas[d].n); calls = 1; }
@@ -1088,7 +1106,8 @@ int main(int argc, char** argv)
       {
         int fd = open(data_to_file(d), O_RDONLY);
         r = yr_scanner_scan_fd(sc, fd); calls = 1;
-        close(fd);
+        if (fcntl(fd, F_GETFD) == -1 || close(fd) != 0)
+          fprintf(out, "{\"e\":\"FdProblem\",\"what\":\"yr_scanner_scan_fd closed the caller's descriptor\"}\n");
       }
       else
       {
@@ -1115,6 +1134,8 @@ int main(int argc, char** argv)
         } while (r == ERROR_BLOCK_NOT_READY && calls < maxcalls);
       }
       clock_gettime(CLOCK_MONOTONIC, &t1);
+      if (count_fds() != scan_fds_before)
+        fprintf(out, "{\"e\":\"FdProblem\",\"what\":\"a %s scan left %d more open descriptors than before the call\"}\n", mode, count_fds() - scan_fds_before);
       fprintf(out, "{\"e\":\"ScanRet\",\"sid\":%d,\"ret\":%d,\"calls\":%d,\"ncb\":%d,\"ms\":%ld,\"entry_point\":", s, r, calls, cb.cb_count,
               (long) ((t1.tv_sec - t0.tv_sec) * 1000 + (t1.tv_nsec - t0.tv_nsec) / 1000000));
       j_u64_or_undef(sc->entry_point);
@@ -1144,7 +1165,8 @@ int main(int argc, char** argv)
       {
         int fd = open(data_to_file(d), O_RDONLY);
         r = yr_rules_scan_fd(rulesets[rr], fd, flags, scan_cb, &cb, timeout);
-        close(fd);
+        if (fcntl(fd, F_GETFD) == -1 || close(fd) != 0)
+          fprintf(out, "{\"e\":\"FdProblem\",\"what\":\"yr_rules_scan_fd closed the caller's descriptor\"}\n");
       }
       else die("bad rscan mode %s", mode);
       fprintf(out, "{\"e\":\"ScanRet\",\"sid\":%d,\"ret\":%d,\"calls\":1,\"ncb\":%d}\n", 100 + rr, r, cb.cb_count);
